@@ -83,8 +83,10 @@ def run(rep, tier, seed, summary):
     xhits, nx = xfer_probes()
     rep.suite("transfer set-up probes on both execute() functions (buffer lengths, all-zero payloads, short transfers, re-issue of one command object)",
               nx, len(xhits))
+    from corr import facade_hist
+    fhits = facade_hist.run(rep, tier, seed, {"buffers"}, PID)
     all_ok = ok and not bad and all(o[1] for o in rep.obligations)
-    if all_ok and tier == "quick":
+    if all_ok and tier == "quick" and not fhits:
         return
     failing = None
     if not ok:
@@ -103,8 +105,7 @@ def run(rep, tier, seed, summary):
     if not hits:
         hits, nprobes = xhits, nprobes + nx
     rep.extra["implementation_probes"] = nprobes
-    from corr import facade_hist
-    hits = list(hits) + facade_hist.run(rep, tier, seed, {"buffers"}, PID)
+    hits = list(hits) + fhits
     new = [h for h in hits if h["id"] not in known]
     for h in hits:
         if h["id"] in known:
